@@ -7,6 +7,7 @@ Require Import Zrs.model.FseDec Zrs.model.SeqSection Zrs.model.BlockEnc Zrs.proo
 Require Import Zrs.model.Matcher Zrs.proofs.C06_Drain Zrs.proofs.C17_Matcher Zrs.proofs.C17_Shape Zrs.proofs.C02_Glue Zrs.proofs.C02_FastBlock.
 Require Import Zrs.model.HufDec Zrs.model.LitEnc Zrs.proofs.C02_Concrete.
 Require Import Zrs.model.SeqNorm Zrs.proofs.C02_O1.
+Require Import Zrs.proofs.C02_HufSide.
 Open Scope Z_scope.
 
 (** level Uncompressed: every input, every fragmentation of the source reads, every block size up to 128 KiB, every
@@ -202,6 +203,20 @@ Theorem C02_fastest_block_step_with_raw_literals : forall d data d' seqs dl do d
     t_max_symbol (fs_ml (sc_fse sc')) = MAX_MATCH_LENGTH_CODE.
 Proof. exact fastest_step_raw_literals. Qed.
 
+(** the table part of obligation O2, for EVERY table: whatever table the decoder builds (at most 255 explicit weights) and
+    whatever literals are made of symbols that table delivers (16 .. 128 Ki of them), the side conditions of the Huffman
+    literal block theorem hold -- the code read off the table is well formed and resolved, and no stream reaches the
+    64 KiB limit of the jump table.  What remains of O2 is that the compressor writes the section the model writes
+    (compared byte by byte on every block of every run) *)
+Theorem C02_huffman_side_conditions_hold_for_every_table : forall ht src t used lits,
+  huf_build_decoder ht src = ROk (t, used) ->
+  Forall (fun w => 0 <= w) (ht_weights t) -> (length (ht_weights t) <= 255)%nat ->
+  16 <= Z.of_nat (length lits) <= 131072 ->
+  Forall (fun s => exists i, 0 <= i < 2 ^ ht_max_bits t /\ h_sym (nth_h (ht_decode t) i) = s) lits ->
+  huf_side_b t (code_of_dec t) lits = true.
+Proof. exact huf_side_holds. Qed.
+
+Print Assumptions C02_huffman_side_conditions_hold_for_every_table.
 Print Assumptions C02_fastest_block_step_with_raw_literals.
 Print Assumptions C02_raw_literal_block_decodes.
 Print Assumptions C02_fastest_roundtrip_given_block_encoder.
